@@ -809,7 +809,7 @@ def run(ctx):
             "harness/overlay/server/zz_verif_c11_test.go: real Session.dispatchRaw, real authenticators basic/token/code/anonymous initialised as in main.go above memverif; fake authenticator 'veriffake' and fake validator 'verifcred' are harness code",
             "oracle inputs of the model (what the driver knows about the credentials it sends: account state, password right/wrong, token fields, validator state) are computed in tools/props/c11.py; parseVersion's result and minSupportedVersion are read from the driver",
             "tools/props/c11.py monitors: python restatement of the property's laws on the implementation's trace",
-            "harness/overlay/server/zz_verif_c11x_test.go + tools/props/c11x.py (sender-header layer): real dispatchRaw / hub / topics above memverif; stored rows read through memverif.DumpTopic, {data} frames at the publisher and at persistent observer sessions; whether the topic accepted the message (q_gates) and whether the session was attached (q_attached, read as s.getSub(expandTopicName) before the request) are oracle inputs of the model read from the run; nil and empty head maps are not distinguished in the comparison",
+            "harness/overlay/server/zz_verif_c11x_test.go + tools/props/c11x.py (sender-header layer): real dispatchRaw / hub / topics above memverif; stored rows read through memverif.DumpTopic, {data} frames at the publisher and at persistent observer sessions; whether the topic accepted the message (q_gates) and whether the session was attached (q_attached, read as s.getSub(expandTopicName) before the request) are oracle inputs of the model read from the run; nil and empty head maps are not distinguished in the comparison; the blanking of {data}.from for channel readers (prepareBroadcastableMessage) is outside the model: such a frame is judged against the From of the stored row",
             "not modelled: device id / language handling of {hi}, cluster proxying, plugins (pluginFireHose), the bodies of the seven topic handlers (only whether they are reached, with which acting user, and the {pub} sender header)",
         ],
     })
